@@ -702,6 +702,10 @@ func TestC09(t *testing.T) {
 		return "", "", h, st
 	}
 	if rf := r.Replay(); rf != nil && len(rf.Witness) > 0 {
+		if c9vmReplay(r, rf) { // witness of the VM-level part (c09vm_test.go)
+			r.Finish(0)
+			return
+		}
 		var c c9Case
 		if err := json.Unmarshal(rf.Witness, &c); err == nil && len(c.Ops) > 0 {
 			r.Eval()
@@ -823,5 +827,6 @@ func TestC09(t *testing.T) {
 	if st.ofProcessing == 0 || st.ofAccepted == 0 || st.ofLagging == 0 || st.ofPopulated == 0 || st.ofHistorical == 0 || st.inBlock == 0 || st.boundary == 0 {
 		r.Inconclusive("a repeat class was never generated: %+v", *st)
 	}
+	c9RunVMPart(r) // VM-level part: real VMs reaching normal operation by every route (c09vm_test.go)
 	r.Finish(r.N(2000, 100000))
 }
